@@ -745,12 +745,44 @@ func init() {
 	reg([]string{"sort.Slice", "sort.SliceStable"}, sortSlice)
 
 	// ---- sync (sequential models)
-	reg([]string{"(*sync.Mutex).Lock", "(*sync.Mutex).Unlock", "(*sync.RWMutex).Lock", "(*sync.RWMutex).Unlock",
-		"(*sync.RWMutex).RLock", "(*sync.RWMutex).RUnlock", "(*sync.WaitGroup).Add", "(*sync.WaitGroup).Done",
-		"(*sync.Cond).Signal", "(*sync.Cond).Broadcast"}, func(fr *frame, args []value) value {
+	// Locks are tracked per owner thread (0 = the harness entry goroutine, 1 = the second thread run
+	// from an access hook, see watch.go): a Lock that the other thread holds blocks the hook step.
+	lockFn := func(fr *frame, args []value) value {
+		m := args[0].(*value)
 		if px != nil {
 			px.events = append(px.events, fr.fn.String()+fmt.Sprintf("@%p", args[0]))
 		}
+		if owner, held := lockOwner[m]; held && owner != curThread {
+			if curThread == 1 {
+				panic(hookBlocked{})
+			}
+			panic(pathAbort{"lock held by the other modelled thread (would block)", false})
+		}
+		prev, had := lockOwner[m]
+		journalFn(func() {
+			if had {
+				lockOwner[m] = prev
+			} else {
+				delete(lockOwner, m)
+			}
+		})
+		lockOwner[m] = curThread
+		return nil
+	}
+	unlockFn := func(fr *frame, args []value) value {
+		m := args[0].(*value)
+		if px != nil {
+			px.events = append(px.events, fr.fn.String()+fmt.Sprintf("@%p", args[0]))
+		}
+		if prev, had := lockOwner[m]; had {
+			journalFn(func() { lockOwner[m] = prev })
+			delete(lockOwner, m)
+		}
+		return nil
+	}
+	reg([]string{"(*sync.Mutex).Lock", "(*sync.RWMutex).Lock", "(*sync.RWMutex).RLock"}, lockFn)
+	reg([]string{"(*sync.Mutex).Unlock", "(*sync.RWMutex).Unlock", "(*sync.RWMutex).RUnlock"}, unlockFn)
+	reg([]string{"(*sync.WaitGroup).Add", "(*sync.WaitGroup).Done", "(*sync.Cond).Signal", "(*sync.Cond).Broadcast"}, func(fr *frame, args []value) value {
 		return nil
 	})
 	natives["(*sync.Mutex).TryLock"] = func(fr *frame, args []value) value { return true }
